@@ -138,6 +138,12 @@ def _build(case):
                 # detection confidence: the item's `conf` quarters, 0 / absent = left at the model's default
                 conf = {"score": it["conf"] / 4} if it.get("conf") else {}
                 sps.append(data.SoundEventPrediction(sound_event=sp, tags=_pred_tags(case, it, T), **conf))
+        # order of the clip's predictions relative to its annotations: 1 reversed, 2 rotated by one (pairing is by
+        # sound-event identity / geometry, never by position)
+        if case.get("perm") == 1:
+            sps.reverse()
+        elif case.get("perm") == 2 and sps:
+            sps = sps[1:] + sps[:1]
         extra = case["style"] == 1 and case["C"] >= 1
         anns.append(data.ClipAnnotation(clip=clip, sound_events=sas, tags=[T[0]] if extra else []))
         preds.append(data.ClipPrediction(clip=clip, sound_events=sps,
@@ -355,7 +361,8 @@ def random_cases(rng, tier):
         made += 1
         extras = [{"pos": rng.randrange(len(clips) + 1), "side": rng.choice(["pred", "pred", "ann"])}
                   for _ in range(rng.choice([0, 0, 1, 1, 2, 3]))]
-        yield {"task": task, "C": C, "u": u, "items": items, "clips": clips, "extras": extras, "style": rng.randrange(4)}
+        yield {"task": task, "C": C, "u": u, "items": items, "clips": clips, "extras": extras,
+               "perm": rng.randrange(3) if task in ("sec", "sed") else 0, "style": rng.randrange(4)}
 
 
 def nontrivial(o):
